@@ -33,7 +33,12 @@ pub fn run(sh: &mut shell::Shell, cl: &CommandLine, cmd: &Command,
         // due to limitation of `parses::parser_line`,
         // `alias foo-bar='foo bar'` will become 'foo-bar=foo bar'
         // while `alias foo_bar='foo bar'` keeps foo_bar='foo bar'
-        let value = if cap[2].starts_with('"') || cap[2].starts_with('\'') {
+        // when the tokenizer already removed the quotes (tagged token), the
+        // value is verbatim, even if it starts with a quote itself
+        let quoted_by_tokenizer = !tokens[1].0.is_empty();
+        let value = if !quoted_by_tokenizer
+            && (cap[2].starts_with('"') || cap[2].starts_with('\''))
+        {
             tools::unquote(&cap[2])
         } else {
             cap[2].to_string()
@@ -44,11 +49,23 @@ pub fn run(sh: &mut shell::Shell, cl: &CommandLine, cmd: &Command,
     CommandResult::new()
 }
 
+/// `alias name='value'`, or with double quotes when the value holds a single
+/// quote and nothing that is special inside double quotes, so that the line
+/// recreates the definition when fed back to the shell.
+fn format_alias(name: &str, value: &str) -> String {
+    let dq_safe = !value.contains(|c| c == '"' || c == '$' || c == '`' || c == '\\');
+    if value.contains('\'') && dq_safe {
+        format!("alias {}=\"{}\"", name, value)
+    } else {
+        format!("alias {}='{}'", name, value)
+    }
+}
+
 fn show_alias_list(sh: &shell::Shell, cmd: &Command,
                    cl: &CommandLine, capture: bool) -> CommandResult {
     let mut lines = Vec::new();
     for (name, value) in sh.get_alias_list() {
-        let line = format!("alias {}='{}'", name, value);
+        let line = format_alias(&name, &value);
         lines.push(line);
     }
     let buffer = lines.join("\n");
@@ -61,7 +78,7 @@ fn show_single_alias(sh: &shell::Shell, name_to_find: &str, cmd: &Command,
                      cl: &CommandLine, capture: bool) -> CommandResult {
     let mut cr = CommandResult::new();
     if let Some(content) = sh.get_alias_content(name_to_find) {
-        let info = format!("alias {}='{}'", name_to_find, content);
+        let info = format_alias(name_to_find, &content);
         print_stdout_with_capture(&info, &mut cr, cl, cmd, capture);
     } else {
         let info = format!("cicada: alias: {}: not found", name_to_find);
